@@ -28,6 +28,9 @@ func init() {
 	register(&Rule{ID: "C12.4", Prop: "C12", Min: 2,
 		Text: "integrity filter: md5Hash.OnUnpack returns data with a nil error only on the true edge of bytes.Equal(digest(payload), trailing 16 bytes); input shorter than a digest is an error",
 		Run:  runC12_4})
+	register(&Rule{ID: "C12.8", Prop: "C12", Min: 1,
+		Text: "the pipe section is measured without wrapping (same obligations as C06.8): narrow-integer arithmetic on receive paths stays within its type - a pipe of the documented maximum length (255) must not make the frame arithmetic wrap",
+		Run:  runNarrowArith})
 	register(&Rule{ID: "C12.5", Prop: "C12", Min: 8,
 		Text: "the receiver learns the pipe from the frame itself: every shipped protocol writes Message.XferPipe in Pack and rebuilds it in Unpack (shared with C05.1)",
 		Run:  func(c *Ctx) { runProtoCoverage(c, []string{"XferPipe"}) }})
@@ -51,6 +54,9 @@ func init() {
 		Text: "a frame's filter pipe is undone in the reverse of the order it was applied (same obligations as C12.1): XferPipe.OnPack walks the list downwards, OnUnpack upwards - with the same direction every pipe of two different filters fails to round-trip",
 		Run:  runC12_1})
 	// ---- C06
+	register(&Rule{ID: "C06.8", Prop: "C06", Min: 1,
+		Text: "no wrapping length arithmetic on receive paths: every +, - or * computed in an integer type narrower than 64 bits inside a protocol's receive functions stays within that type for all operand values allowed by their types and the dominating comparisons (interval analysis) - `1 + xferLen` in a byte is 0 for 255",
+		Run:  runNarrowArith})
 	register(&Rule{ID: "C06.7", Prop: "C06", Min: 5,
 		Text: "the limit is applied to at least what is allocated: for every wire-sized receive buffer, allocated size <= the quantity the dominating error-checked SetSize examined, proved symbolically (linear forms over SSA atoms, intervals refined by dominating comparisons); arithmetic or a conversion that may wrap in its type on the way to the check breaks the proof (a length of 0xFFFFFFFF+4 passes any limit)",
 		Run:  runC06_7})
@@ -1197,5 +1203,77 @@ func runC06_7(c *Ctx) {
 	}
 	if n < 4 {
 		c.Undec("wire-sized allocations with a local check", "", fmt.Sprintf("found %d, expected >= 4", n))
+	}
+}
+
+// ---------------------------------------------------------------- C06.8 / C12.8
+
+func runNarrowArith(c *Ctx) {
+	p := c.P
+	seen := map[*ssa.Function]bool{}
+	nFn, nOps := 0, 0
+	for _, im := range protoImpls(p) {
+		if im.unpack == nil {
+			continue
+		}
+		for _, fn := range recvReach(p, im.unpack) {
+			if seen[fn] {
+				continue
+			}
+			seen[fn] = true
+			nFn++
+			idx := 0
+			Instrs(fn, func(i ssa.Instruction) {
+				bo, ok := i.(*ssa.BinOp)
+				if !ok || (bo.Op != token.ADD && bo.Op != token.SUB && bo.Op != token.MUL) {
+					return
+				}
+				b, isB := bo.Type().Underlying().(*types.Basic)
+				if !isB {
+					return
+				}
+				switch b.Kind() {
+				case types.Uint8, types.Uint16, types.Uint32, types.Int8, types.Int16, types.Int32:
+				default:
+					return
+				}
+				if _, c1 := bo.X.(*ssa.Const); c1 {
+					if _, c2 := bo.Y.(*ssa.Const); c2 {
+						return
+					}
+				}
+				nOps++
+				idx++
+				eng := &linEngine{p: p, fn: fn, at: bo.Block(), slack: map[ssa.Value]bool{}, busy: map[ssa.Value]bool{}}
+				a, bb := eng.interval(bo.X), eng.interval(bo.Y)
+				var r ival
+				switch bo.Op {
+				case token.ADD:
+					r = ival{satAdd(a.lo, bb.lo), satAdd(a.hi, bb.hi)}
+				case token.SUB:
+					r = ival{satAdd(a.lo, -bb.hi), satAdd(a.hi, -bb.lo)}
+				case token.MUL:
+					cands := []int64{satMul(a.lo, bb.lo), satMul(a.lo, bb.hi), satMul(a.hi, bb.lo), satMul(a.hi, bb.hi)}
+					r = ival{cands[0], cands[0]}
+					for _, x := range cands {
+						if x < r.lo {
+							r.lo = x
+						}
+						if x > r.hi {
+							r.hi = x
+						}
+					}
+				}
+				t := typeIval(bo.Type())
+				key := fmt.Sprintf("%s %s #%d in %s", b.Name(), bo.Op, idx, FnName(fn))
+				c.fact("intervals")
+				c.Check(r.within(t), key, p.InstrPos(bo), fmt.Sprintf("result in [%d,%d] within %s", r.lo, r.hi, b.Name()),
+					fmt.Sprintf("%s arithmetic on a receive path can leave its type: operands in [%d,%d] and [%d,%d] give [%d,%d] (type range [%d,%d]) - a boundary value of a wire field wraps the computed length", b.Name(), a.lo, a.hi, bb.lo, bb.hi, r.lo, r.hi, t.lo, t.hi))
+			})
+		}
+	}
+	c.Hold("receive functions scanned for narrow arithmetic", "", fmt.Sprintf("%d functions, %d narrow +,-,* operations", nFn, nOps))
+	if nFn < 10 {
+		c.Undec("receive functions", "", fmt.Sprintf("only %d receive functions found", nFn))
 	}
 }
